@@ -165,6 +165,12 @@ func checkC03(c *CaseC03, fl *Fails) {
 		ids := spelledSpatial(c.Boxes, c.Spell)
 		out, err := integrate.ChangeSpatialIdsZoom(ids, c.H)
 		if err != nil {
+			if c.Spell != 0 {
+				// a library that rejects a non-canonical spelling ("+1", "007", "-0") with an error does not break the
+				// property (it quantifies over valid IDs; only the canonical decimal spelling is certainly one)
+				Count("spelled_input_rejected", 1)
+				return
+			}
 			fl.Add("error", "ChangeSpatialIdsZoom(%v,%d): %v", trunc(ids, 6), c.H, err)
 			return
 		}
@@ -183,6 +189,12 @@ func checkC03(c *CaseC03, fl *Fails) {
 	ids := spelledExt(c.Boxes, c.Spell)
 	out, err := integrate.ChangeExtendedSpatialIdsZoom(ids, c.H, c.V)
 	if err != nil {
+		if c.Spell != 0 {
+			// a library that rejects a non-canonical spelling ("+1", "007", "-0") with an error does not break the
+			// property (it quantifies over valid IDs; only the canonical decimal spelling is certainly one)
+			Count("spelled_input_rejected", 1)
+			return
+		}
 		fl.Add("error", "ChangeExtendedSpatialIdsZoom(%v,%d,%d): %v", trunc(ids, 6), c.H, c.V, err)
 		return
 	}
